@@ -1,13 +1,13 @@
-\* quick tier, the variant that creates the arena OUTSIDE the critical section: same invariants
+\* thorough tier, leaked guards: 3 threads x 1 round per phase x 2 phases; a guard may be passed to mem::forget
 SPECIFICATION Spec
 CONSTANTS
     Threads = {t1, t2, t3}
     MaxRounds = 1
     MaxChunks = 1
     MaxPoolOps = 1
-    CreateUnderLock = FALSE
-    MayFail = TRUE
-    MayForget = FALSE
+    CreateUnderLock = TRUE
+    MayFail = FALSE
+    MayForget = TRUE
 SYMMETRY Symm
 INVARIANTS TypeOK MutexOK OwnerOK Exclusive IdleDisjoint Conservation ReuseOK ReuseTight DataIntact
 PROPERTIES DecideCreateOnlyWhenIdleEmpty BlocksOnlyForgottenByPoolOps ResetRewindsAll DropReleasesAll LeakedStayValid
